@@ -117,6 +117,29 @@ CHECKS["C19"] = dict(
     technique="Lean 4 proof (size invariants by induction over all histories) + state-size correspondence + soak",
     design="5/C19")
 
+CHECKS["C05"] = dict(
+    text="Theorem p1_clean_delivered (Props/C05.lean): for every (optional) tail without a start character, every list of well-formed "
+         "readout descriptors each no larger than the reader's size guard, and EVERY splitting of tail ++ readouts into read() calls - "
+         "streams of any total length - the model reader returns exactly one readout object per descriptor, in order, byte-identical "
+         "(C04 valid_complete shows each is valid). Proved with an invariant tying the reader state (hunt flag, collected lines, pending "
+         "partial line) to the position in the clean stream, including that the size guard never trips. Correspondence: descriptors -> "
+         "Lean spec encoder -> real ModeDReader with leading tails, readouts up to ~8 KiB, streams of hundreds of KiB (thorough), chunk "
+         "sizes {1,7,100,1000,4096}, random cuts.",
+    note=NOTE_COMMON + "The guard constant and the identification pattern text are regenerated and pinned.",
+    technique="Lean 4 proof (stream-position invariant over all chunkings) + spec-encoder-driven differential correspondence",
+    design="5/C05")
+CHECKS["C16"] = dict(
+    text="Theorems: hdlc_resync_stuffing(_chunked) - after ANY octets, with octet stuffing, every well-formed frame of a following clean "
+         "stream except possibly the first is delivered, exact and in order, for every chunking; hdlc_resync_plain - without stuffing, "
+         "flag-free frames are all delivered from a point at most maxFrameLen + 2 frames into the clean stream; p1_resync - after ANY "
+         "bytes every well-formed readout except possibly the first is delivered, for every chunking. No-contamination follows from the C01 "
+         "framing theorem (frames are images of disjoint input segments). Correspondence: noise families of the quantifier (random, "
+         "look-alike starts, ending in escape, truncated messages, abort sequences, > 2047 garbage, over-long unterminated readouts) + 2..40 "
+         "clean messages from the spec encoders x chunkings x 4 cfgs; valid outputs compared with the sent list.",
+    note=NOTE_COMMON + "Without stuffing the clean frames are generated flag-free (the statement's domain).",
+    technique="Lean 4 proof (case analysis on the state at the first delimiter + clean-stream lemma) + differential correspondence",
+    design="5/C16")
+
 NOT_YET = {}
 
 
